@@ -6,9 +6,11 @@ can be descheduled only inside an intercepted file-system operation on a virtual
 Visibility semantics (CPython buffered files, content far below the 8 KB buffer):
   open(p,'w')  : file truncated immediately (visible to everybody)
   f.write(s)   : buffered, invisible
-  f.close()/with-exit : buffered data becomes visible, mtime advances
-  open(p,'r')  : snapshot point; read() returns what is visible at the time of the read() call
-  os.replace   : atomic
+  f.close()/with-exit, f.flush() : buffered data becomes visible, mtime advances
+  open(p,'r')  : binds the handle to the file object (inode) the name refers to at that moment; read() returns that object's
+                 content at the time of the read() call (a later os.replace of the name does not redirect the handle)
+  os.replace   : atomic; handles that are open on the source keep writing into the renamed object
+  f.fileno() / os.fsync / os.open+os.close on directories : accepted, no effect on visibility (fsync does not flush Python buffers)
 Every intercepted call is one scheduling point, taken BEFORE the operation executes.
 """
 import builtins
@@ -39,13 +41,23 @@ class VFS:
         self.dirs = {VROOT.rstrip("/")}
         self.clock = 100.0
         self.torn_reads = []
+        self.fds = {}
+        self.handles = []
+
+    def new_fd(self, obj):
+        fd = 1000000 + len(self.fds)
+        self.fds[fd] = obj
+        return fd
 
     def tick(self):
         self.clock += 1.0
         return self.clock
 
     def snapshot(self):
-        return tuple(sorted((p, f.content, f.mtime, f.writers) for p, f in self.files.items())) + tuple(sorted(self.dirs))
+        # open handles are bound to file objects that may no longer have a name: their content belongs to the state as well
+        held = tuple(sorted((h.owner if h.owner is not None else -1, h.path, h.mode, h.file.content if h.file is not None else "")
+                            for h in self.handles if not h.closed))
+        return tuple(sorted((p, f.content, f.mtime, f.writers) for p, f in self.files.items())) + tuple(sorted(self.dirs)) + (held,)
 
     def add(self, path, content, mtime=None):
         self.files[path] = VFile(content, mtime if mtime is not None else self.tick())
@@ -63,14 +75,39 @@ class VHandle:
         self.buf = []
         self.closed = False
         self._readpos = 0
+        self.file = sched.vfs.files.get(path)     # the file object this handle is bound to (survives rename / remove of the name)
+        self.fd = None
+        self.owner = sched.current
+        sched.vfs.handles.append(self)
 
     # writing
     def write(self, s):
         self.buf.append(s)
         return len(s)
 
+    def _commit(self):
+        f = self.file
+        data = "".join(self.buf)
+        if "a" in self.mode:
+            f.content = f.content + data[getattr(self, "_appended", 0):]
+            self._appended = len(data)
+        else:
+            # the handle has its own offset starting at 0: it overwrites whatever is there now, a longer tail written by
+            # someone else in the meantime survives
+            f.content = data + f.content[len(data):]
+        f.mtime = self.sched.vfs.tick()
+
     def flush(self):
-        pass
+        if self.closed or not ("w" in self.mode or "a" in self.mode or "x" in self.mode):
+            return
+        self.sched.point("flush", self.path)
+        if self.file is not None:
+            self._commit()
+
+    def fileno(self):
+        if self.fd is None:
+            self.fd = self.sched.vfs.new_fd(self)
+        return self.fd
 
     def close(self):
         if self.closed:
@@ -78,24 +115,17 @@ class VHandle:
         self.closed = True
         if "w" in self.mode or "a" in self.mode or "x" in self.mode:
             self.sched.point("close-w", self.path)
-            f = self.sched.vfs.files.get(self.path)
+            f = self.file
             if f is None:
-                f = self.sched.vfs.files[self.path] = VFile("")
-            data = "".join(self.buf)
-            if "a" in self.mode:
-                f.content = f.content + data
-            else:
-                # the handle has its own offset starting at 0: it overwrites whatever is there now, a longer tail written by
-                # someone else in the meantime survives
-                f.content = data + f.content[len(data):]
-            f.mtime = self.sched.vfs.tick()
+                f = self.file = self.sched.vfs.files[self.path] = VFile("")
+            self._commit()
             f.writers -= 1
             if f.writers == 0:
                 f.committed.add(f.content)
 
     def read(self, n=-1):
         self.sched.point("read", self.path)
-        f = self.sched.vfs.files.get(self.path)
+        f = self.file
         data = f.content if f else ""
         if f is not None and f.writers > 0 and data not in f.committed:
             # content that only exists because somebody is half-way through rewriting the file
@@ -115,7 +145,7 @@ class VHandle:
         self._readpos = pos
 
     def truncate(self, size=None):
-        f = self.sched.vfs.files.get(self.path)
+        f = self.file
         if f is not None:
             f.content = f.content[:size if size is not None else self._readpos]
 
@@ -263,6 +293,9 @@ class Interposer:
         o["remove"] = os.remove
         o["getpid"] = os.getpid
         o["isfile"] = os.path.isfile
+        o["fsync"] = os.fsync
+        o["os_open"] = os.open
+        o["os_close"] = os.close
         me = self
 
         def v(path):
@@ -364,7 +397,8 @@ class Interposer:
             if src not in s.vfs.files:
                 raise FileNotFoundError(src)
             s.vfs.files[dst] = s.vfs.files.pop(src)
-            s.vfs.files[dst].committed.add(s.vfs.files[dst].content)
+            if s.vfs.files[dst].writers == 0:
+                s.vfs.files[dst].committed.add(s.vfs.files[dst].content)
 
         def vremove(path, **kw):
             if not v(path) or me.sched is None:
@@ -380,7 +414,28 @@ class Interposer:
                 return o["getpid"]()
             return 1000 + me.sched.current
 
+        def vfsync(fd):
+            if me.sched is None or fd not in me.sched.vfs.fds:
+                return o["fsync"](fd)
+            me.sched.point("fsync", str(fd))
+
+        def vos_open(path, flags, *a, **kw):
+            if not v(path) or me.sched is None:
+                return o["os_open"](path, flags, *a, **kw)
+            s = me.sched
+            s.point("os-open", path)
+            if path.rstrip("/") not in s.vfs.dirs and path not in s.vfs.files:
+                raise FileNotFoundError(path)
+            return s.vfs.new_fd(path)
+
+        def vos_close(fd):
+            if me.sched is None or fd not in me.sched.vfs.fds:
+                return o["os_close"](fd)
+
         builtins.open = vopen
+        os.fsync = vfsync
+        os.open = vos_open
+        os.close = vos_close
         os.path.exists = vexists
         os.path.isfile = lambda p: vexists(p) if v(p) else o["isfile"](p)
         os.path.getmtime = vgetmtime
@@ -393,6 +448,9 @@ class Interposer:
     def uninstall(self):
         o = self.orig
         builtins.open = o["open"]
+        os.fsync = o["fsync"]
+        os.open = o["os_open"]
+        os.close = o["os_close"]
         os.path.exists = o["exists"]
         os.path.isfile = o["isfile"]
         os.path.getmtime = o["getmtime"]
